@@ -342,7 +342,8 @@ def _fill_in_default_arguments(func: Callable, call: ast.Call) -> Tuple[ast.Call
     arg_array = list(call.args)
     keywords = list(call.keywords)
     for param in sig.parameters.values():
-        if param.name != "self":
+        # `known_types` is the internal-use argument of the stream operators: never in a query
+        if param.name not in ("self", "known_types"):
             if len(arg_array) <= i_arg:
                 # See if they specified it as a keyword
                 a, keywords = _find_keyword(keywords, param.name)
@@ -353,6 +354,7 @@ def _fill_in_default_arguments(func: Callable, call: ast.Call) -> Tuple[ast.Call
                     arg_array.append(a)
                 else:
                     raise ValueError(f"Argument {param.name} is required")
+            i_arg += 1
 
     # If we are making a change to the call, put in a reference back to the
     # original call.
